@@ -4,7 +4,7 @@ L1: theorems of NfcVerif.Props.C16 about the executable model
     (Model/Retry.lean): the retry primitives of Type 1/2/3/4 tags and every
     public tag operation as a command program over them.
 L2: every public operation (ndef read, ndef write, presence check, format,
-    format+wipe, protect, protect with password, authenticate, dump) of 14
+    format+wipe, protect, protect with password, authenticate, dump) of 15
     simulated tags (generic Type 1/2/3/4 and the Topaz, Ultralight,
     Ultralight C, NTAG203, NTAG21x, FeliCa Standard, FeliCa Lite classes) is
     run on the REAL code behind a fault-injecting frontend (sims/retry_sims.py)
@@ -30,12 +30,14 @@ LEAN_TARGETS = ["NfcVerif.Props.C16", "drv_c16"]
 THEOREMS = [
     "NfcVerif.C16.transceive_bounded",
     "NfcVerif.C16.transceive_errno",
+    "NfcVerif.C16.isodep_bounded",
+    "NfcVerif.C16.isodep_errno",
+    "NfcVerif.C16.op_outcome_documented",
     "NfcVerif.C16.op_outcome_documented_partial",
-    "NfcVerif.C16.t3_outcome_documented",
     "NfcVerif.C16.t3_format_documented",
     "NfcVerif.C16.write_not_duplicated",
     "NfcVerif.C16.unknown_commerror_counterexample",
-    "NfcVerif.C16.isodep_commerror_counterexample",
+    "NfcVerif.C16.presence_check_not_retried",
     "NfcVerif.C16.lost_answer_write_twice",
 ]
 
@@ -71,7 +73,7 @@ def hook_errors():
 def family(kind):
     return {"t2": "t2", "t2big": "t2", "ul": "t2", "ulc": "t2", "ntag203": "t2", "ntag213": "t2",
             "t3": "t3", "t3std": "t3", "lite": "t3", "t1s": "t1", "t1d": "t1", "topaz": "t1",
-            "topaz512": "t1", "t4": "t4"}[kind]
+            "topaz512": "t1", "t4": "t4", "t4slow": "t4"}[kind]
 
 
 def instrument(kind, air, tag):
@@ -467,7 +469,8 @@ def oracle(ck, plan, script, r):
         prev = raw if ex[-1][1] == "a" and not any(e[0] == "!" for e in inv) else None
     # a burst within the budget is invisible
     body = script.lstrip("a")
-    if body and len(body) <= 2 and len(set(body)) == 1 and body[0] in "txpTXP" and len(script) - len(body) < plan.n:
+    absorb = min(2, r["nret"]) if fam == "t4" and op != "present" else 2
+    if body and len(body) <= absorb and len(set(body)) == 1 and body[0] in "txpTXP" and len(script) - len(body) < plan.n:
         target = None
         idx = 0
         for inv in plan.base["invs"]:
